@@ -188,6 +188,9 @@ class MediaInfo(HTMLHandlerBase):
                 status = 404
         if result["error"] is None:
             result.update(mf.toJSON())
+            if (mf.stream.timing_ref is not None and
+                    mf.stream.timing_ref.get('media_name') == mf.name):
+                mf.stream.timing_reference = None
             models.db.session.delete(mf)
             models.db.session.commit()
             result["deleted"] = mfid
@@ -330,6 +333,10 @@ class DeleteMedia(DeleteModelBase):
             "title": current_media_file.name,
             "stream": current_stream.title,
         }
+        stream = current_media_file.stream
+        if (stream.timing_ref is not None and
+                stream.timing_ref.get('media_name') == current_media_file.name):
+            stream.timing_reference = None
         models.db.session.delete(current_media_file)
         models.db.session.commit()
         return result
